@@ -6,6 +6,7 @@ use mmv_base::case::{scale, Case, Prop, PS};
 use mmv_base::ctx::{Ctx, S};
 use mmv_base::fmtutil::{fmt_debug, fmt_display, RefSet};
 use mmv_base::kinds::{Kind, NOID};
+use mmv_base::probe::{check_multiset, check_ordered, probe, ProbeOut};
 use mmv_base::tl::{self, Caged, Cb, Pk};
 use std::cell::Cell;
 use std::collections::BTreeMap;
@@ -690,7 +691,9 @@ where
             let before = slot.model.clone();
             let n = if liar { pre.len() } else { before.len() };
             let take = scale(b, n + 2);
-            let end = (c as usize * 3) >> 7;
+            // 0 drop, 1 run to the end, 2 forget, 3.. = adaptor probe (nth/last/fold/count/skip) on the rest
+            let end = (c as usize * 8) >> 7;
+            let pk = ((c & 0x0f) as usize * (n + 2)) >> 4;
             cx.bump(S::drains);
             if take > 0 && take < n && end != 1 {
                 cx.bump(S::partial_drains);
@@ -738,6 +741,15 @@ where
                             tl::ledger_mark_may_leak(o.kid);
                         }
                     }
+                }
+            } else if end >= 3 && !ended && !fault {
+                let po: ProbeOut<(u8, u32)> = probe(cx, KD::NOALLOC, d, end - 3, pk, N, |k: KD::K| (KD::kraw(&k), KD::kid(&k)));
+                if po.panicked == Some(Pk::Injected) {
+                    fault = true;
+                } else if !liar {
+                    let rest: Vec<(u8, u32)> = before.iter().filter(|(k, _)| !ys.iter().any(|y| y.0 == **k)).map(|(k, id)| (*k, if KD::TRACKED { *id } else { NOID })).collect();
+                    let r = check_multiset(&po, &rest, true);
+                    cx.chk(P10, r.is_ok(), "adaptor", || format!("Set::drain after {} of {n} items: {}", ys.len(), r.clone().err().unwrap_or_default()));
                 }
             } else if let Err(p) = Self::lib(cx, move || drop(d)) {
                 fault |= unexpected(cx, liar, P10, &p);
@@ -794,9 +806,13 @@ where
             let mut hints: Vec<(usize, (usize, Option<usize>))> = Vec::with_capacity(N + 8);
             let mut crest: Option<Vec<usize>> = None;
             let mut ccount: Option<usize> = None;
+            let mut pout: Option<ProbeOut<usize>> = None;
+            let pwhich = ((a >> 5) as usize * 5) >> 3;
+            let pk = (((a >> 1) & 0x0f) as usize * (n + 2)) >> 4;
             loop {
                 hints.push((it.len(), it.size_hint()));
                 if ys.len() == cut {
+                    pout = Some(probe(cx, KD::NOALLOC, it.clone(), pwhich, pk, N, |k: &KD::K| addr(k)));
                     let c1 = it.clone();
                     ccount = Self::lib(cx, move || c1.count()).ok();
                     crest = Some(it.clone().map(|k| addr(k)).collect());
@@ -829,6 +845,11 @@ where
                     let rest: Vec<usize> = ys[cut.min(total)..].iter().map(|y| y.ka).collect();
                     cx.chk(P09, *cr == rest, "clone-continues", || format!("a clone of {name} taken after {cut} items continues differently"));
                     cx.chk(P09, ccount == Some(total - cut.min(total)), "count", || format!("{name}: count() after {cut} of {total} = {ccount:?}"));
+                }
+                if let Some(po) = &pout {
+                    let rest: Vec<usize> = ys[cut.min(total)..].iter().map(|y| y.ka).collect();
+                    let r = check_ordered(po, &rest, true);
+                    cx.chk(P09, r.is_ok(), "adaptor", || format!("{name} after {cut} of {total} items: {}", r.clone().err().unwrap_or_default()));
                 }
                 cx.chk(P09, total == slot.model.len(), "coverage", || format!("{name} yielded {total} items, the set holds {}", slot.model.len()));
                 for (i, y) in ys.iter().enumerate() {
@@ -866,7 +887,8 @@ where
             let before = std::mem::take(&mut slot.model);
             let n = if liar { pre.len() } else { before.len() };
             let take = scale(b, n + 2);
-            let end = (c as usize * 3) >> 7;
+            let end = (c as usize * 8) >> 7;
+            let pk = ((c & 0x0f) as usize * (n + 2)) >> 4;
             cx.bump(S::consumes);
             if take > 0 && take < n && end != 1 {
                 cx.bump(S::partial_consumes);
@@ -911,6 +933,15 @@ where
                             tl::ledger_mark_may_leak(o.kid);
                         }
                     }
+                }
+            } else if end >= 3 && !ended && !fault {
+                let po: ProbeOut<(u8, u32)> = probe(cx, KD::NOALLOC, it, end - 3, pk, N, |k: KD::K| (KD::kraw(&k), KD::kid(&k)));
+                if po.panicked == Some(Pk::Injected) {
+                    fault = true;
+                } else if !liar {
+                    let rest: Vec<(u8, u32)> = before.iter().filter(|(k, _)| !ys.iter().any(|y| y.0 == **k)).map(|(k, id)| (*k, if KD::TRACKED { *id } else { NOID })).collect();
+                    let r = check_multiset(&po, &rest, true);
+                    cx.chk(P10, r.is_ok(), "adaptor", || format!("Set::into_iter after {} of {n} items: {}", ys.len(), r.clone().err().unwrap_or_default()));
                 }
             } else if let Err(p) = Self::lib(cx, move || drop(it)) {
                 fault |= unexpected(cx, liar, P10, &p);
